@@ -17,7 +17,7 @@ from .c06 import project
 PID = "C07"
 RULE = ("Hypothesis: abstract triple sets (IRI/bnode subjects, IRI/bnode/literal objects; literal contents over an adversarial piece "
         "alphabet with '#', ';', ',', '.', escaped quote/backslash; language tags; datatypes as <IRI>, xsd:-prefixed, custom-prefixed, "
-        "XSD under another prefix name; untyped integers) laid out by drawn choices: subject grouping with ';' and ',', 'a' vs rdf:type, "
+        "XSD under another prefix name; untyped integers with and without sign) laid out by drawn choices: subject grouping with ';' and ',', 'a' vs rdf:type, "
         "prefixed / <absolute> / <relative to @base> IRIs, separator at every token boundary in {blank, tab, 2 blanks, newline, "
         "newline+indent}, whole-line and trailing comments.  Bounded-exhaustive: all 2^(n-1) blank/newline placements of pinned "
         "documents of <=12 tokens.  Out-of-dialect probes must raise or agree with rdflib.  Oracle: abstract triples (set and count); "
@@ -330,7 +330,7 @@ def term_obj(draw):
     if k < 8:
         return ["bnode", draw(st.sampled_from(BNODES))]
     if k < 9:
-        return ["int", str(draw(st.integers(0, 99)))]
+        return ["int", draw(st.sampled_from(["", "", "-", "+"])) + str(draw(st.integers(0, 99)))]
     return ["iri", draw(st.sampled_from(IRIS))]
 
 
